@@ -36,7 +36,8 @@ MANIFEST = {
             'IGNORE/DEBUG/UNIMPLEMENTED unless strict) reach a handler (pre_kex_only_kex); before authentication '
             'nothing above 79 does (pre_auth_only_transport_and_auth); messages of the other role are rejected '
             '(wrong_role_rejected, table-wide role guards); strict KEX: filler fatal, KEXINIT first, both sequence '
-            'numbers restart at NEWKEYS for any prior counts (Terrapin); USERAUTH_SUCCESS needs a live auth object. '
+            'numbers restart at NEWKEYS for any prior counts (Terrapin); USERAUTH_SUCCESS needs a live auth object '
+            '(weaker than "a request outstanding": the gap is stated as success_accepted_before_request_is_written). '
             'Handler tables and role guards are regenerated from the code each run; a live pair stepped to each '
             'phase with injected messages must react as the model predicts.',
     'note': 'flags of the endpoint under test are sampled from its attributes to feed the model (inputs only; the '
@@ -50,7 +51,10 @@ LEAN_PROPS = ['AsyncsshModel.Props.C06']
 DRIVER = 'Drivers/C06.lean'
 TRUSTED = ['chacha20-poly1305 sealing in harness/refpeer.py (used to inject into encrypted phases)']
 ASSUMPTIONS = ['an authentication object exists only after the first key exchange completed',
-               'EXT_INFO is expected only right after NEWKEYS']
+               'EXT_INFO is expected only right after NEWKEYS',
+               '"a request of its own is outstanding" is approximated by "the client\'s authentication object exists" '
+               '(the object is created before its first request is written: Gate.connGuard, '
+               'success_accepted_before_request_is_written)']
 
 ALGS = dict(encryption_algs=['chacha20-poly1305@openssh.com'], kex_algs=['curve25519-sha256'],
             compression_algs=['none'], mac_algs=())
@@ -568,15 +572,184 @@ def oracle(ctx: Ctx) -> OracleResult:
                                         f'{o["flags"]["nready"]}) accepted unauthenticated message type {o["t"]} '
                                         f'before its receive keys were in use', key))
     res.nontrivial = len(set((o['role'], o['phase'], o['strict'], o['t']) for o in outs if 'reaction' in o))
+    oracle_internal_errors(res, hist)
     res.histogram = dict(hist)
     res.samples = [{k: o[k] for k in ('role', 'phase', 'strict', 't', 'variant', 'reaction') if k in o} for o in outs[:4]]
     res.rule = ('as the correspondence; failure = an application callback fired (or filler survived strict KEX) because of '
-                'the injected message, or a non-kex message was accepted while the receiver had no receive keys')
+                'the injected message, or a non-kex message was accepted while the receiver had no receive keys, or a '
+                'message outside its dialogue (type 60 before the method\'s request, CHANNEL_OPEN of an odd type) ended '
+                'the connection through a bare Python exception')
     return res
+
+
+# ---------------------------------------------------------------------------
+# messages that reach a handler at a moment its own dialogue does not call for them: the property lets the
+# connection end or the message be refused - through a protocol error / an open failure, not through a Python
+# exception out of the handler (audit C06 #5(i), #6)
+
+
+class HoldClient(asyncssh.SSHClient):
+    """a client whose application is still deciding what to offer when the server's message arrives"""
+
+    def __init__(self, started: asyncio.Event, release: asyncio.Future):
+        self.started, self.release = started, release
+
+    async def _hold(self) -> None:
+        self.started.set()
+        await self.release
+
+    async def public_key_auth_requested(self) -> Any:
+        await self._hold()
+        return None
+
+    async def password_auth_requested(self) -> Any:
+        await self._hold()
+        return None
+
+    async def kbdint_auth_requested(self) -> Any:
+        await self._hold()
+        return None
+
+    def kbdint_challenge_received(self, *a: Any) -> Any:
+        return []
+
+
+class OfferAllServer(asyncssh.SSHServer):
+    def begin_auth(self, username: str) -> bool:
+        return True
+
+    def public_key_auth_supported(self) -> bool:
+        return True
+
+    def password_auth_supported(self) -> bool:
+        return True
+
+    def kbdint_auth_supported(self) -> bool:
+        return True
+
+
+TYPE60_BODIES = {
+    'publickey': [S(b'ssh-ed25519') + S(b'x'), b''],
+    'password': [S(b'change it') + S(b''), b'\0'],
+    'keyboard-interactive': [S(b'') + S(b'') + S(b'') + struct.pack('>I', 1) + S(b'Password:') + b'\0', b'\0\0'],
+}
+
+
+async def early_method_message(method: str, body: bytes) -> Dict[str, Any]:
+    """the client's auth object for `method` exists but has not written its request; the server sends type 60"""
+    started = asyncio.Event()
+    release = asyncio.get_event_loop().create_future()
+    out: Dict[str, Any] = {'kind': 'early-method-message', 'method': method, 'body': hx(body)}
+    coro, s, _hub = await pair.make_pair(
+        server_factory=OfferAllServer, connect=False, server_opts=dict(**ALGS),
+        client_opts=dict(client_factory=lambda: HoldClient(started, release), preferred_auth=method, **ALGS))
+    task = asyncio.ensure_future(coro)
+    try:
+        await asyncio.wait_for(started.wait(), 10)
+        await pair.settle(5)
+        s.send_packet(60, body)
+        await pair.settle(15)
+        if task.done():
+            exc = task.exception()
+            out['connect'] = type(exc).__name__ if exc else 'returned'
+            out['documented'] = exc is None or isinstance(exc, (asyncssh.Error, OSError))
+        else:
+            out['connect'], out['documented'] = 'pending', True
+    except asyncio.TimeoutError:
+        out['skip'] = 'client-never-asked'
+    finally:
+        if not release.done():
+            release.cancel()
+        for conn in (s,):
+            try:
+                conn.abort()
+            except Exception:
+                pass
+        task.cancel()
+        await asyncio.gather(task, return_exceptions=True)
+        await pair.settle(5)
+    return out
+
+
+CHANNEL_TYPES = ['channel', 'nonsense', 'session', 'x11', 'direct-tcpip', 'forwarded-tcpip', 'auth-agent@openssh.com',
+                 'channel-open', 'global-request', 'kexinit', 'service', 'userauth', '']
+
+
+async def odd_channel_open(sender: str, chantype: str) -> Dict[str, Any]:
+    """after authentication one side sends CHANNEL_OPEN for a channel type named like a piece of the receiver"""
+    log: List[str] = []
+    out: Dict[str, Any] = {'kind': 'channel-open', 'sender': sender, 'chantype': chantype}
+    c, s, _hub = await pair.make_pair(server_factory=lambda: _NoAuthLogServer(log),
+                                      server_opts=dict(**ALGS),
+                                      client_opts=dict(client_factory=lambda: LogClient(log), **ALGS))
+    with capture.PacketTap() as tap:
+        snd, rcv = (c, s) if sender == 'client' else (s, c)
+        try:
+            snd.send_packet(90, S(chantype.encode()) + struct.pack('>III', 0, 65536, 32768))
+            await pair.settle(15)
+            out['reply'] = [p[0] for _q, p, _n in tap.recv.get(id(snd), []) if p and p[0] in (91, 92)]
+            lost = [l for l in log if l.startswith(('srv' if sender == 'client' else 'cli') + ':connection_lost')]
+            out['receiver_lost'] = lost[0].split(':')[-1] if lost else None
+        finally:
+            for conn in (c, s):
+                try:
+                    conn.abort()
+                except Exception:
+                    pass
+            await pair.settle(5)
+    return out
+
+
+class _NoAuthLogServer(LogServer):
+    def __init__(self, log: List[str]):
+        super().__init__(log, [])
+
+    def begin_auth(self, username: str) -> bool:
+        return False
+
+
+def oracle_internal_errors(res: OracleResult, hist: Hist, only: Optional[Dict[str, Any]] = None) -> None:
+    async def go() -> List[Dict[str, Any]]:
+        outs = []
+        for method, bodies in TYPE60_BODIES.items():
+            for body in bodies:
+                if only is None or (only.get('kind') == 'early-method-message' and only.get('method') == method
+                                    and only.get('body') == hx(body)):
+                    outs.append(await early_method_message(method, body))
+        for sender in ('client', 'server'):
+            for ct in CHANNEL_TYPES:
+                if only is None or (only.get('kind') == 'channel-open' and only.get('sender') == sender
+                                    and only.get('chantype') == ct):
+                    outs.append(await odd_channel_open(sender, ct))
+        return outs
+    for o in pair.run(go(), timeout=600):
+        if 'skip' in o:
+            hist.hit('skipped:' + o['skip'])
+            continue
+        res.evaluations += 1
+        if o['kind'] == 'early-method-message':
+            hist.hit(f'early-type60:{o["method"]}:{o["connect"]}')
+            if not o['documented']:
+                res.failures.append(Failure(
+                    f'internal-error-from-out-of-phase-message:{o["method"]}-type60-before-request:{o["connect"]}',
+                    f'client doing {o["method"]} authentication, its request not yet written, received message type '
+                    f'60 ({o["body"]}): connect() raised a bare {o["connect"]}', o))
+        else:
+            bad = o['receiver_lost'] not in (None, 'None') and not hasattr(asyncssh, str(o['receiver_lost']))
+            hist.hit(f'channel-open:{"refused" if 92 in o["reply"] else ("accepted" if 91 in o["reply"] else "no-reply")}')
+            if bad:
+                res.failures.append(Failure(
+                    f'internal-error-from-peer-message:channel-open-type-{o["chantype"] or "empty"}:{o["receiver_lost"]}',
+                    f'{o["sender"]} sent CHANNEL_OPEN for channel type {o["chantype"]!r}: the receiver\'s connection '
+                    f'ended with a bare {o["receiver_lost"]} instead of an open failure', o))
 
 
 def replay(ctx: Ctx, rep: Dict[str, Any]) -> List[Failure]:
     r = rep.get('replay', rep)
+    if r.get('kind') in ('early-method-message', 'channel-open'):
+        res = OracleResult()
+        oracle_internal_errors(res, Hist(), r)
+        return res.failures
     o = run_cases([(r['role'], r['phase'] if r['variant'] != 'then-kexinit' else 'P0-version', r['strict'],
                     r.get('t1', r['t']) if r['variant'] == 'then-kexinit' else r['t'], r['variant'], r['seed'])])[0]
     forb = FORBIDDEN_CALLBACKS.get(o['phase'], ())
